@@ -117,6 +117,29 @@ CLASSES.update({
 })
 
 
+# ---- dataquery (C15, C16) ----------------------------------------------------------------------
+PATHCOMP = TupleT(VAL, VAL, VAL)
+PATHCOMP.names = ('separator', 'id', 'slice')
+CLASSES.update({
+    # Python slice objects: immutable records (start, stop, step), each None or an int
+    'PySlice': dict(bases=[], fields={'start': VAL, 'stop': VAL, 'step': VAL}),
+    'NodePath': dict(bases=[], module='pybufrkit.dataquery',
+                     fields={'path_string': STR, 'subset_slice': VAL, 'components': ListT(PATHCOMP)}),
+    'NodePathParser': dict(bases=[], module='pybufrkit.dataquery',
+                           fields={'bare_id_matches_all': BOOL, 'pos': INT, 'current_state': VAL, 'current_token': VAL,
+                                   'current_id': VAL, 'current_separator': VAL, 'current_slice_elements': ListT(VAL),
+                                   'node_path': Ref('NodePath')}),
+})
+
+
+def ctor_pathcomp(eng, ctx, st, cls, args, kwargs):
+    vals = list(args) + [kwargs[n] for n in PATHCOMP.names[len(args):]]
+    yield st, SV(PATHCOMP, eng.mk_tuple([eng.coerce(v, VAL) for v in vals]).z)
+
+
+CLASSES['PathComponent'] = dict(bases=[], fields={}, ctor=ctor_pathcomp)
+
+
 def ctor_bsr(eng, ctx, st, cls, args, kwargs):
     vals = list(args) + [kwargs[n] for n in BSR.names[len(args):]]
     yield st, SV(BSR, eng.mk_tuple([eng.coerce(v, INT) for v in vals]).z)
